@@ -1,3 +1,4 @@
+import Secp.Proofs.FrontSchnorrPub
 import Secp.Proofs.PubKey
 import Secp.Proofs.Slices
 import Secp.Proofs.BytesProgPub
@@ -90,5 +91,13 @@ theorem serializeCompressed_regenerated (x y : Nat) :
 theorem serializeUncompressed_regenerated (x y : Nat) :
     Secp.Gen.BytesBuild.serializeUncompressed x y = serializeUncompressed x y :=
   Secp.Proofs.BytesBuild.serializeUncompressed_gen_eq_model x y
+
+
+/-- `schnorr.ParsePubKey` (schnorr/pubkey.go: nil test, length test, format byte with the parity bit masked, then
+    `secp256k1.ParsePubKey`) regenerated by pass T8 = `schnorrParsePubKey`, for every byte string, nil or not -/
+theorem schnorrParsePubKey_regenerated (b : Bytes) (isNil : Bool) :
+    Secp.Gen.Drivers.schnorrParsePubKeyGen b isNil =
+      (match schnorrParsePubKey isNil b with | .ok pk => DR.ok pk | .err e => DR.err e | .panic => DR.panic) :=
+  Secp.Proofs.FrontSchnorrPub.schnorrParsePubKey_regenerated b isNil
 
 end Secp.Props.C08
